@@ -10,6 +10,10 @@ Real code driven here (all from /repo's working tree, nothing edited):
             per file operation; with backend "fork": really forked processes on a temporary directory, real
             files and real lockf, the schedule enforced through pipes
   addr      real EtherCat.find_free_address (scripted randint) -> real ParallelEtherCat.get_mbx_lock
+  mbxbus    real EtherCat (connect with a stub endpoint, sendloop, process_packet) + 1-3 real Terminals configured by the
+            real parse_sync_managers, 1-4 tasks doing SDO reads/writes with retries over a frame-level bus of simulated
+            mailbox terminals; attempts fail BEFORE anything is written (status read unanswered, stale mail whose fetch
+            fails) and are retried; judged are the mailbox headers each simulated terminal received
 The three defects this check found (creation window, tasks of one process, upper end of the address range) are
 repaired in /repo; their former counterexample schedules are now ordinary cases that must pass.
 Each observable trace is compared exactly with the Lean model (Ebv.Mbx via Drivers/C15.lean); the property text
@@ -17,6 +21,7 @@ is evaluated on the implementation's trace by the oracles below, independent of 
 import asyncio
 import fcntl
 import json
+import logging
 import os
 import queue
 import re
@@ -34,6 +39,7 @@ DRIVER = "Drivers/C15.lean"
 THEOREMS = [
     "Ebv.C15.counter_next", "Ebv.C15.counter_cycle",
     "Ebv.C15.inproc_serialised", "Ebv.C15.inproc_counted",
+    "Ebv.C15.retries_serialised", "Ebv.C15.retries_counted", "Ebv.C15.retries_total",
     "Ebv.C15.crossproc_serialised", "Ebv.C15.creation_window_safe", "Ebv.C15.holder_can_proceed",
     "Ebv.C15.addr_accepted",
     "Ebv.C15.same_process_witness_now", "Ebv.C15.creation_window_witness_now",
@@ -44,6 +50,8 @@ TRUSTED = ["hand-written model Ebv.Mbx of MailboxLock / LockFile / ParallelMailb
            "against the kernel on the forked-process cases",
            "mbxMod/mbxStart/addrLo/addrHi regenerated from /repo into Ebv.Generated.Consts"]
 ASSUMPTIONS = ["no task cancellation while waiting for a lock; a process is single threaded",
+               "an attempt that fails once its message has been (partly) written may or may not have reached the terminal: only "
+               "failures before the first write of a message are required to leave the counter alone",
                "one lock object per (process, terminal): tasks of a process share it, as Terminal.mbx_lock does",
                "the lock file is not removed while in use (removal belongs to C23)",
                "random.randint(a, b) may return b",
@@ -54,7 +62,10 @@ RULE = ("cycle: c0 in 0..7 x n<=40; inproc: 1-4 tasks x 1-2 critical sections x 
         "short, terminal byte anywhere in the inclusive range, random (process, task) schedules + every interleaving of the "
         "first four steps of two processes on an absent file (thorough: every interleaving of all eight steps of two "
         "processes on a present file); fork: the former counterexample schedules and controls on really forked processes; "
-        "addr: both ends of terminal_addr_range and random members; non-trivial = at least two users sent a message")
+        "addr: both ends of terminal_addr_range and random members; mbxbus: 1-3 terminals (symmetric and asymmetric mailbox sizes) x "
+        "1-4 tasks x 1-4 SDO transfers, 0-3 unanswered status reads, 0-2 stale mails (fetched, or their fetch unanswered) per "
+        "terminal, every transfer retried until it succeeds; non-trivial = at least two users sent a message (mbxbus: a failed "
+        "attempt followed by a message that left)")
 
 
 def succ(c):
@@ -897,10 +908,246 @@ def oracle_addr(ctx, case, out):
                 case, out, None)
 
 
+
 # ----------------------------------------------------------------------------------------------------------
-RUN = {"cycle": run_cycle, "inproc": run_inproc, "terminal": run_terminal, "cross": run_cross, "addr": run_addr}
+# mbxbus: real EtherCat (connect/sendloop/process_packet) + real Terminals configured by parse_sync_managers,
+# over a frame-level bus with simulated mailbox terminals; attempts that fail before anything is written
+# (status read unanswered, stale mail that cannot be fetched) are retried
+# ----------------------------------------------------------------------------------------------------------
+def _walk_frame(data):
+    """independent walk over an EtherCAT frame -> [(cmd, station, off, start, stop)] without the identifying datagram"""
+    out, p, first = [], 2, True
+    while True:
+        cmd, _idx, addr, off, lf = struct.unpack_from("<BBHHH", data, p)
+        start, stop = p + 10, p + 10 + (lf & 0x7ff)
+        if not first:
+            out.append((cmd, addr, off, start, stop))
+        first = False
+        p = stop + 2
+        if not lf >> 15:
+            return out
+
+
+class _Sock:
+    def bind(self, addr):
+        pass
+
+
+class MbxTerm:
+    """one simulated terminal: two mailbox sync managers and an expedited-only SDO server"""
+    def __init__(self, spec, log):
+        self.station, self.log = spec["addr"], log
+        (self.out_off, self.out_sz), (self.in_off, self.in_sz) = spec["out"], spec["in"]
+        self.outbox, self.inbox = bytearray(self.out_sz), []        # inbox: mails waiting to be fetched, oldest first
+        self.lost, self.stale, self.stale_lost = set(spec.get("lost", [])), set(spec.get("stale", [])), set(spec.get("stale_lost", []))
+        self.nstatus, self.drop_in = 0, False
+
+    def unexpected(self):
+        return any(m[5] & 0xf != 3 for m in self.inbox)
+
+    def access(self, cmd, off, data):
+        """-> response bytes, or None when the datagram is not executed (working counter 0)"""
+        n = len(data)
+        if cmd == 4 and off == 0x805 and n == 1:                 # status of the out mailbox, read before every send
+            k, self.nstatus = self.nstatus, self.nstatus + 1
+            if k in self.lost:
+                self.log.append(f"x{self.station}")
+                return None
+            if (k in self.stale or k in self.stale_lost) and not self.inbox:
+                body = b"stale"
+                self.inbox.append(struct.pack("<HHBB", len(body), 0, 0, 2) + body)      # an EoE mail nobody asked for
+                self.drop_in = k in self.stale_lost
+                self.log.append(f"u{self.station}")
+            return b"\x08" if self.unexpected() else b"\x00"
+        if cmd == 4 and off == 0x80D and n == 1:
+            return b"\x08" if self.inbox else b"\x00"
+        if cmd == 5 and self.out_off <= off and off + n <= self.out_off + self.out_sz:
+            self.outbox[off - self.out_off:off - self.out_off + n] = data
+            if off + n == self.out_off + self.out_sz:
+                self.mail()
+            return bytes(data)
+        if cmd == 4 and self.in_off <= off and off + n <= self.in_off + self.in_sz and self.inbox:
+            if self.drop_in:
+                self.drop_in = False
+                self.log.append(f"x{self.station}")
+                return None
+            ret = (self.inbox[0] + bytes(self.in_sz))[off - self.in_off:off - self.in_off + n]
+            if off + n == self.in_off + self.in_sz:
+                self.log.append(f"p{self.station}" if self.inbox[0][5] & 0xf == 3 else f"v{self.station}")
+                self.inbox.pop(0)
+            return ret
+        return bytes(n) if cmd == 4 else bytes(data)
+
+    def mail(self):
+        ln, _addr, _cp, tc = struct.unpack_from("<HHBB", self.outbox, 0)
+        body = bytes(self.outbox[6:6 + ln])
+        coe, sdocmd, index, sub = struct.unpack_from("<HBHB", body, 0)
+        self.log.append(f"q{self.station}={tc >> 4}:{index:x}")
+        if any(m[5] & 0xf == 3 for m in self.inbox):
+            self.log.append(f"o{self.station}")                   # a request while the previous answer is unread
+        if sdocmd & 0xe0 == 0x40:
+            ans = struct.pack("<HBHB4s", 3 << 12, 0x43, index, sub, struct.pack("<HH", index, self.station))
+        else:
+            ans = struct.pack("<HBHB4x", 3 << 12, 0x60, index, sub)
+        self.inbox.append(struct.pack("<HHBB", len(ans), 0, 0, 3 | (tc & 0x70)) + ans)
+
+
+class MbxBus:
+    def __init__(self, loop, terms, log):
+        self._sock, self.loop, self.proto = _Sock(), loop, None
+        self.terms = {t["addr"]: MbxTerm(t, log) for t in terms}
+
+    def sendto(self, data, addr):
+        ans = bytearray(data)
+        for cmd, station, off, start, stop in _walk_frame(bytes(data)):
+            t = self.terms.get(station)
+            if t is None or cmd not in (4, 5):
+                continue
+            r = t.access(cmd, off, bytes(data[start:stop]))
+            if r is None:
+                continue
+            ans[start:stop] = r
+            ans[stop:stop + 2] = b"\x01\x00"
+        self.loop.call_soon(self.proto.datagram_received, bytes(ans), addr)
+
+
+def run_mbxbus(case):
+    from ebpfcat.ethercat import Terminal, EtherCat, EtherCatError
+    log = []
+    loop = asyncio.new_event_loop()
+    bus = MbxBus(loop, case["terms"], log)
+    tries = 3 + max(len(t.get("lost", [])) + len(t.get("stale_lost", [])) for t in case["terms"])
+
+    async def endpoint(factory, **kw):
+        bus.proto = factory()
+        bus.proto.connection_made(bus)
+        return bus, bus.proto
+
+    async def user(t, spec, terms):
+        term = terms[spec["term"]]
+        for _ in range(spec.get("lag", 0)):
+            await asyncio.sleep(0)
+        for j, op in enumerate(spec["ops"]):
+            for _attempt in range(tries):
+                try:
+                    if op == "r":
+                        got = await term.sdo_read(0x6000 + t, 1)
+                        if bytes(got) != struct.pack("<HH", 0x6000 + t, term.position):
+                            log.append(f"e{t}:foreign-answer")
+                    else:
+                        await term.sdo_write(bytes([t, j]), 0x7000 + t, 2)
+                    break
+                except EtherCatError:
+                    pass                                            # the attempt failed: try again
+                except Exception as ex:     # noqa: BLE001 - canonicalised
+                    log.append(f"e{t}:{type(ex).__name__}")
+                    break
+            else:
+                log.append(f"e{t}:gave-up")
+
+    lockdir = None
+    if case.get("lock") == "parallel":              # the lock of multi-process programs, on a real lock file
+        import ebpfcat.lock as lk
+        from ebpfcat.ebpfcat import ParallelEtherCat
+        lockdir = tempfile.mkdtemp(prefix="c15_mbxbus_")
+        owner = types.SimpleNamespace(mbx_lock_file=lk.LockFile(lockdir + "/mbx.lock", *ParallelEtherCat.terminal_addr_range))
+        get_lock = lambda ec, no: ParallelEtherCat.get_mbx_lock(owner, no)
+    else:
+        get_lock = lambda ec, no: ec.get_mbx_lock(no)
+
+    async def go():
+        ec = EtherCat("lo")
+        await ec.connect()
+        terms = []
+        for spec in case["terms"]:
+            term = Terminal(ec)
+            term.position, term.name = spec["addr"], f"T{spec['addr']}"
+            sm = struct.pack("<HHBBBB", *spec["out"], 0x26, 0, 1, 0) + struct.pack("<HHBBBB", *spec["in"], 0x22, 0, 1, 0)
+            for extra in spec.get("pdo", []):
+                sm += struct.pack("<HHBBBB", *extra)
+            term.parse_sync_managers(sm)
+            term.mbx_lock = get_lock(ec, term.position)
+            terms.append(term)
+        try:
+            await asyncio.wait_for(asyncio.gather(*[user(t, spec, terms) for t, spec in enumerate(case["tasks"])]), 20)
+        except asyncio.TimeoutError:
+            log.append("e-:stalled")
+        finally:
+            for t in asyncio.all_tasks():
+                if t is not asyncio.current_task():
+                    t.cancel()
+
+    loop.create_datagram_endpoint = endpoint
+    logging.disable(logging.CRITICAL)           # the code reports the unexpected mail with logging.error
+    try:
+        loop.run_until_complete(go())
+        loop.run_until_complete(asyncio.sleep(0))
+    finally:
+        logging.disable(logging.NOTSET)
+        loop.close()
+        if lockdir is not None:
+            owner.mbx_lock_file.close()
+            shutil.rmtree(lockdir, ignore_errors=True)
+    return " ".join(log)
+
+
+def oracle_mbxbus(ctx, case, out):
+    """per terminal, on what the terminal itself saw: each mail written into its mailbox carries the successor of the
+    previous one's counter whatever failed in between, no request while the previous answer is unread, nobody got a
+    foreign answer"""
+    bad = None
+    for spec in case["terms"]:
+        st = str(spec["addr"])
+        pend = last = None
+        for tok in out.split():
+            if tok[0] == "e":
+                bad = bad or f"transfer failed: {tok}"
+                continue
+            who = tok[1:].split("=")[0]
+            if who != st:
+                continue
+            if tok[0] == "q":
+                c = int(tok.split("=")[1].split(":")[0])
+                if pend is not None:
+                    bad = bad or f"terminal {st}: request {tok} written while request {pend} is unanswered"
+                if not ((last is None and 0 <= c <= 7) or (last is not None and c == succ(last))):
+                    bad = bad or f"terminal {st}: counter {c} after {last} (failed attempts in between must not consume counters)"
+                pend, last = tok, c
+            elif tok[0] == "p":
+                pend = None
+            elif tok[0] == "o":
+                bad = bad or f"terminal {st}: request written into a mailbox exchange that is not finished"
+    ctx.require(bad is None, "mailbox headers seen by the terminals not serialised/counted: " + str(bad), case, out, None)
+
+
+def gen_mbxbus(rng):
+    nterm = rng.choice([1, 1, 2, 2, 3])
+    addrs = rng.sample(range(1000, 1030), nterm)
+    terms = []
+    for a in addrs:
+        osz, isz = rng.choice([(64, 64), (128, 128), (48, 96), (256, 32), (32, 200), (1024, 1024)])
+        t = {"addr": a, "out": [0x1000, osz], "in": [0x1000 + osz + rng.choice([0, 16, 0x100]), isz]}
+        if rng.random() < 0.5:
+            t["pdo"] = [[0x1800, rng.randrange(0, 9), 0x24, 0, 1, 0], [0x1c00, rng.randrange(0, 9), 0x20, 0, 1, 0]]
+        r = rng.random()
+        if r < 0.75:
+            t["lost"] = sorted(rng.sample(range(0, 6), rng.choice([1, 1, 2, 3])))
+        if rng.random() < 0.35:
+            t["stale"] = sorted(rng.sample(range(0, 7), rng.choice([1, 2])))
+        if rng.random() < 0.35:
+            t["stale_lost"] = sorted(rng.sample(range(0, 7), rng.choice([1, 2])))
+        terms.append(t)
+    tasks = []
+    for _ in range(rng.choice([1, 2, 2, 3, 4])):
+        tasks.append({"term": rng.randrange(nterm), "ops": [rng.choice("rw") for _ in range(rng.randrange(1, 5))],
+                      "lag": rng.choice([0, 0, 1, 2, 3])})
+    return {"op": "mbxbus", "terms": terms, "tasks": tasks, "lock": rng.choice(["mailbox", "mailbox", "parallel"])}
+
+# ----------------------------------------------------------------------------------------------------------
+RUN = {"cycle": run_cycle, "inproc": run_inproc, "terminal": run_terminal, "cross": run_cross, "addr": run_addr,
+       "mbxbus": run_mbxbus}
 ORACLE = {"cycle": oracle_cycle, "inproc": oracle_inproc, "terminal": oracle_terminal, "cross": oracle_cross,
-          "addr": oracle_addr}
+          "addr": oracle_addr, "mbxbus": oracle_mbxbus}
 
 
 def to_model(case):
@@ -909,6 +1156,10 @@ def to_model(case):
         return {"op": "cycle", "c0": 0, "n": sum(len(ops) for ops in case["tasks"])}
     if case["op"] == "cycle":
         return {"op": "cycle", "c0": case["c0"], "n": case["n"]}
+    if case["op"] == "mbxbus":      # per terminal: its tasks' operations (one exchange each) and the planned failures
+        return {"op": "retry", "terms": [
+            {"tasks": [[1] * len(t["ops"]) for t in case["tasks"] if t["term"] == k],
+             "fails": len(spec.get("lost", [])) + len(spec.get("stale_lost", []))} for k, spec in enumerate(case["terms"])]}
     return {k: v for k, v in case.items() if k != "backend"}
 
 
@@ -918,6 +1169,9 @@ def impl_view(case, out):
         return model_view(out)
     if case["op"] == "terminal":
         return " ".join(t.split("=")[1] for t in out.split() if t[0] == "q")
+    if case["op"] == "mbxbus":
+        return " || ".join(" ".join(t.split("=")[1].split(":")[0] for t in out.split()
+                                    if t[0] == "q" and t[1:].split("=")[0] == str(spec["addr"])) for spec in case["terms"])
     return out
 
 
@@ -1033,6 +1287,10 @@ def fork_family():
 
 
 def nontrivial(case, out):
+    if case["op"] == "mbxbus":      # a failed attempt followed by a message that really left
+        toks = out.split()
+        fails = [i for i, t in enumerate(toks) if t[0] == "x"]
+        return bool(fails) and any(t[0] == "q" for t in toks[fails[0]:])
     users = {t.split("=")[0][1:] for t in out.split(" | ")[0].split() if t[0] in "sSq" and "=" in t}
     return len(users) >= 2
 
@@ -1054,6 +1312,7 @@ def run(ctx):
     cases += [gen_inproc(rng) for _ in range(ctx.n(700, 20000))]
     cases += [gen_terminal(rng) for _ in range(ctx.n(150, 3000))]
     cases += [gen_cross(rng) for _ in range(ctx.n(700, 20000))]
+    cases += [gen_mbxbus(rng) for _ in range(ctx.n(300, 6000))]
 
     outs = []
     known_fail = {}
@@ -1066,7 +1325,9 @@ def run(ctx):
         if failed:
             known_fail[i] = True
         ctx.case(c, nontrivial=nontrivial(c, out),
-                 kind=c["op"] + (":" + c["backend"] if c.get("backend") else "") + (":oracle-fail" if failed else ""))
+                 kind=c["op"] + (":" + c["backend"] if c.get("backend") else "") + (":oracle-fail" if failed else "") +
+                 ((":" + c.get("lock", "mailbox")) + (":retried" if " x" in " " + out else ":clean") + (":stale-mail" if " u" in " " + out else "")
+                  if c["op"] == "mbxbus" else ""))
     model = ctx.drive(DRIVER, [to_model(c) for c in cases], "mailbox locks")
     if model is not None:
         for i, (c, out, line) in enumerate(zip(cases, outs, model)):
@@ -1087,7 +1348,9 @@ def replay(ctx, case):
 
 LEVEL_TEXT = ("Lean 4 proofs over a hand-written model of lock.py: the counter sequence is 0,1,..,7,1,.. for any number of calls; "
               "for any number of tasks sharing a MailboxLock and every schedule (asyncio.Lock FIFO semantics) critical sections "
-              "never overlap, each request is answered before the next and counters are consecutive across all tasks. For the lock "
+              "never overlap, each request is answered before the next and counters are consecutive across all tasks - also when sections "
+              "are attempts that failed before their next message was written: once all are done there is exactly one counter per message "
+              "that left (retries_total). For the lock "
               "file (after the three fix: commits): for any number of processes AND tasks per process, file present or absent, and "
               "every schedule of file operations and tasks - including any activity between the creator's O_EXCL open and its "
               "ftruncate - users are serialised, counted consecutively, read only valid counters and never fail; the holder of the "
